@@ -240,6 +240,28 @@ def run(ck: Checker):
                 if not any(isinstance(x, ast.Name) and x.id in derived for x in ast.walk(sub.slice)):
                     probs15.append(f'L{sub.lineno}: `{norm_text(sub)[:50]}` — the cache of generated proxy types is keyed without the exposed methods: the second object of a type id gets the methods of the first one seen in this process')
     ck.ob('C14-15', ap, (ap.node.lineno, 'proxy type cache'), not probs15, '; '.join(sorted(set(probs15))[:2]) if probs15 else (f'{n15} use(s) of the proxy type cache, each keyed by the exposed methods' if n15 else 'generated proxy types are not cached'))
+    # ------------------------------------------------------------------ C14-16
+    ck.rule('C14-16', 'a call that fails leaves the connection usable, whatever fails: in the serving loop the receipt of the request is covered by the handler that answers #TRACEBACK — arguments that cannot be un-pickled in the server are that call\'s failure, not the end of the serving thread')
+    sv16 = mod.func('Server.serve_client')
+    recvs16 = [c for c in ast.walk(sv16.node) if isinstance(c, ast.Call) and ((isinstance(c.func, ast.Name) and c.func.id == 'recv') or (isinstance(c.func, ast.Attribute) and c.func.attr == 'recv')) and not c.args]
+    ck.need(recvs16, f'{sv16.key}: receipt of the request not found')
+    covers16 = set()
+    for tr in [t for t in ast.walk(sv16.node) if isinstance(t, ast.Try)]:
+        if any(x is recvs16[0] for b in tr.body for x in ast.walk(b)):
+            for h in tr.handlers:
+                if h.type is None:
+                    covers16.add('BaseException')
+                for e in (h.type.elts if isinstance(h.type, ast.Tuple) else ([h.type] if h.type is not None else [])):
+                    covers16.add((dotted(e) or '?').split('.')[-1])
+    ok16 = bool({'Exception', 'BaseException'} & covers16)
+    ck.ob('C14-16', sv16, recvs16[0], ok16, f'the receipt of the request is covered by handlers for {sorted(covers16)}' if ok16 else f'`{norm_text(recvs16[0])}` is covered only by handlers for {sorted(covers16) or "nothing"}: a request whose arguments cannot be un-pickled ends the serving thread and closes the connection — every later call of that client thread fails with BrokenPipeError')
+    # ------------------------------------------------------------------ C14-17
+    ck.rule('C14-17', 'a proxy offers the public callables of the hosted OBJECT: Server.create computes the exposed names from the object it has just made, not from its type (callables set on the instance — a strategy function, a bound-method alias — are public methods of that object)')
+    cr17 = mod.func('Server.create')
+    pm17 = [c for c in ast.walk(cr17.node) if isinstance(c, ast.Call) and (dotted(c.func) or '').split('.')[-1] == 'public_methods']
+    ck.need(pm17, f'{cr17.key}: public_methods call not found')
+    bad17 = [c for c in pm17 if not (c.args and isinstance(c.args[0], ast.Name))]
+    ck.ob('C14-17', cr17, pm17[0], not bad17, 'the exposed names are the public callables of the object itself' if not bad17 else f'`{norm_text(bad17[0])}`: the exposed names are computed from something other than the hosted object (its type has no instance-level callables)')
     # ------------------------------------------------------------------ C14-14
     ck.rule('C14-14', 'the exception of the hosted method is what the caller gets: after the handler has built the #ERROR message nothing else is decided for this call — no later step reads the (unassigned) result or replaces the message (a mapped method that raises would surface as a library UnboundLocalError) (EXITS)', minimum=1)
     cmf = ck.repo.func(SERVERPROC, 'Server._callmethod')
